@@ -567,13 +567,20 @@ func (c *Ctx) cmapComparator(cmp *ssa.Function, field, key string, lengthFirst b
 		for _, byteRel := range []int{-1, 0, 1} {
 			ev := &ssaEval{c: c, bind: map[ssa.Value]sv{}, mem: map[string]sv{}}
 			usedField := map[string]bool{}
+			otherCmp := ""
 			ev.load = func(ld *ssa.UnOp, addr sv) (sv, bool) {
 				a := addr.s
 				// …<table>[i].<key>
 				for _, idx := range []string{"i", "j"} {
 					if strings.Contains(a, "["+idx+"].") {
 						parts := strings.Split(a, ".")
-						usedField[parts[len(parts)-1]] = true
+						fld := parts[len(parts)-1]
+						usedField[fld] = true
+						if fld != key {
+							// another field of the entry (the upper bound of a range, the destination):
+							// a value of its own, about which the table of source-code orders says nothing
+							return symV(fld + "(" + idx + ")"), true
+						}
 						return symV("key(" + idx + ")"), true
 					}
 				}
@@ -581,11 +588,17 @@ func (c *Ctx) cmapComparator(cmp *ssa.Function, field, key string, lengthFirst b
 			}
 			ev.call = func(call ssa.CallInstruction, args []sv) (sv, bool) {
 				if callName(call) == "bytes.Compare" && len(args) == 2 {
-					r := byteRel
-					if args[0].s == "key(j)" && args[1].s == "key(i)" {
-						r = -r
+					switch {
+					case args[0].s == "key(i)" && args[1].s == "key(j)":
+						return intV(int64(byteRel)), true
+					case args[0].s == "key(j)" && args[1].s == "key(i)":
+						return intV(int64(-byteRel)), true
+					case args[0].s == args[1].s && strings.HasPrefix(args[0].s, "key("):
+						return intV(0), true
 					}
-					return intV(int64(r)), true
+					// a comparison involving anything but the two source codes is not fixed by the table
+					otherCmp = fmt.Sprintf("bytes.Compare(%s, %s)", args[0].s, args[1].s)
+					return sv{}, false
 				}
 				return sv{}, false
 			}
@@ -628,6 +641,9 @@ func (c *Ctx) cmapComparator(cmp *ssa.Function, field, key string, lengthFirst b
 			fr.vals[cmp.Params[1]] = symV("j")
 			_, _, ret := ev.runBlocks(fr, cmp.Blocks[0], nil, nil)
 			if len(ret) != 1 || ret[0].k != svBool {
+				if otherCmp != "" {
+					return fmt.Sprintf("it compares %s, expected the %s of entry i against the %s of entry j", otherCmp, key, key)
+				}
 				return "not evaluable: " + ev.why
 			}
 			want := byteRel < 0
